@@ -137,6 +137,7 @@ class C15:
             lt.append(row)
         out["lt"] = lt
         cls = [ReferenceTuple, Reference, NamableReference, NamedReference]
+        extra_pre = []
         parsed = []
         for pz in case["parse"]:
             k = cls[pz["c"]]
@@ -154,8 +155,29 @@ class C15:
             except Exception as e:  # noqa: BLE001
                 parsed.append({"e": classify(e)})
         out["parse"] = parsed
+        # from_reference: converting an existing reference object, with the converter as validation context, must
+        # standardise / reject exactly like parsing its CURIE does -- whatever class the object already has
+        known_ = {x: r_.prefix for r_ in conv.records for x in [r_.prefix] + list(r_.prefix_synonyms)}
+        for o in objs:
+            if isinstance(o, tuple):
+                continue
+            for k in (Reference, NamableReference):
+                try:
+                    got = k.from_reference(o, converter=conv)
+                    res = (got.prefix, got.identifier)
+                except Exception as e:  # noqa: BLE001
+                    res = classify(e)
+                want = (known_[o.prefix], o.identifier) if o.prefix in known_ else "validation"
+                if res != want:
+                    extra_pre.append(f"{k.__name__}.from_reference({o!r}, converter) gives {res!r}, expected {want!r}")
+                try:
+                    plain = k.from_reference(o)
+                    if (plain.prefix, plain.identifier) != (o.prefix, o.identifier):
+                        extra_pre.append(f"{k.__name__}.from_reference({o!r}) changes the pair to {plain!r}")
+                except Exception as e:  # noqa: BLE001
+                    extra_pre.append(f"{k.__name__}.from_reference({o!r}) raised {type(e).__name__}")
         # laws that need the live objects
-        extra = []
+        extra = list(extra_pre)
         for o, r in zip(objs, case["refs"]):
             if r["c"] != 0:
                 try:
